@@ -159,6 +159,17 @@ pub fn oracle(_ctx: &RunCtx, spec: &WipeSpec, log: &mut CaseLog) -> Result<(), S
             });
         }
     }
+    if bits == 64 {
+        for (j, v) in t.values.iter().enumerate() {
+            let off = v - t.promises[j].unwrap_or(0);
+            if off != *v && off >> 40 != 0 {
+                secrets.push(Secret {
+                    name: format!("witness value [{}] minus its promise (8-byte little-endian)", j),
+                    pat: off.to_le_bytes().to_vec(),
+                });
+            }
+        }
+    }
     // bit vectors of value - promise, as the prover lays them out: 16 consecutive 32-byte words
     if bits >= 16 {
         for (j, v) in t.values.iter().enumerate() {
@@ -195,6 +206,22 @@ pub fn oracle(_ctx: &RunCtx, spec: &WipeSpec, log: &mut CaseLog) -> Result<(), S
         return Err(format!("{} prover is not deterministic for a fixed RNG stream", INCONCLUSIVE));
     }
     scan("prove", c, &secrets, &mut stats)?;
+    // ---- a prove call that FAILS late: the promise of the LAST member of an aggregate exceeds its value
+    if cfg.m >= 2 && t.values[cfg.m - 1] < u64::MAX {
+        let mut bad = t.promises.clone();
+        bad[cfg.m - 1] = Some(t.values[cfg.m - 1] + 1);
+        let st_bad = RangeStatement::init(t.params.clone(), t.commitments.clone(), bad, None).map_err(|e| format!("{:?}", e))?;
+        let mut tr = t.transcript();
+        let mut rng = tspec.rng.make();
+        alloc::capture_start();
+        let r = guarded(|| R::prove(&mut tr, &st_bad, &t.w, &mut rng).is_ok());
+        let c = alloc::capture_stop();
+        if r? {
+            return Err("prover accepted value < promise at the last position of an aggregate".into());
+        }
+        scan("prove refused because the last member's promise exceeds its value", c, &secrets, &mut stats)?;
+        drop(st_bad);
+    }
     // ---- verify with recovery (and drop of the returned masks)
     for act in [VerifyAction::RecoverAndVerify, VerifyAction::RecoverOnly] {
         let mut ts = [t.transcript()];
@@ -292,7 +319,7 @@ pub fn def() -> PropertyDef {
         level: "exploration",
         rule: "A case is a configuration (8-64 bits, aggregation 1-16, capacity m..2m, degree 1-6) with high-entropy secrets (top-half uniform \
                values, uniform blindings, uniform seed) run on Ristretto under a tracking global allocator that copies every block passed to \
-               dealloc (the old block of a moving realloc included) while armed. Operations, each with its own capture window: prove; \
+               dealloc (the old block of a moving realloc included) while armed. Operations, each with its own capture window: prove; a prove call that is refused late (promise of the last aggregate member above its value); \
                verify_batch in RecoverAndVerify and RecoverOnly followed by drop of the returned masks; recovering verification of [valid seeded \
                member, invalid member] that fails at the final check or inside the per-proof loop; drop of RangeWitness, CommitmentOpening (and \
                clone), ExtendedMask, RangeStatement; drop_in_place of a boxed statement followed by a volatile read of its bytes. Oracle: no \
